@@ -91,6 +91,8 @@ void           bus_matchmaker_unref (BusMatchmaker *matchmaker);
 
 dbus_bool_t bus_matchmaker_add_rule             (BusMatchmaker   *matchmaker,
                                                  BusMatchRule    *rule);
+dbus_bool_t bus_matchmaker_has_rule_by_value    (BusMatchmaker   *matchmaker,
+                                                  BusMatchRule    *value);
 dbus_bool_t bus_matchmaker_remove_rule_by_value (BusMatchmaker   *matchmaker,
                                                  BusMatchRule    *value,
                                                  DBusError       *error);
